@@ -50,6 +50,33 @@ def names_ok(seq):
     return isinstance(seq, (tuple, list)) and all(isinstance(x, str) for x in seq)
 
 
+R_KEYERROR, R_DEFAULT, R_OTHER, R_NONE = 1000, 1001, 1002, 1003
+
+
+def tag_reads(m, tag, objs):
+    """every read accessor of Element on one tag, coded as Model/PyFunc.v tag_reads"""
+    sentinel = object()
+
+    def code(call, none_code):
+        try:
+            r = call()
+        except KeyError:
+            return R_KEYERROR
+        except Exception:
+            return R_OTHER
+        if r is sentinel:
+            return R_DEFAULT
+        if r is None and none_code:
+            return R_NONE
+        i = oidx(objs, r)
+        return i if i >= 0 else R_OTHER
+
+    return [code(lambda: m.getTaggedValue(tag), False), code(lambda: m.getDirectTaggedValue(tag), False),
+            code(lambda: m.queryTaggedValue(tag), True), code(lambda: m.queryDirectTaggedValue(tag), True),
+            code(lambda: m.queryTaggedValue(tag, sentinel), False),
+            code(lambda: m.queryDirectTaggedValue(tag, sentinel), False)]
+
+
 def make_factory(src):
     text = "def _make(_o, _keep, Interface, ABCInterface, abc):\n"
     text += "".join("    " + ln + "\n" for ln in src.split("\n") if ln.strip())
@@ -188,6 +215,12 @@ def one(case):
             return out
         out["sigstr"] = s
         out["tagged"] = [[t, oidx(objs, m.getTaggedValue(t))] for t in m.getTaggedValueTags()]
+        out["tags"] = [str(t) for t in m.getTaggedValueTags()]
+        out["dtags"] = [str(t) for t in m.getDirectTaggedValueTags()]
+        probe = list(func.__dict__)
+        probe += [t for t in out["tags"] + out["dtags"] if t not in probe]
+        probe.append("absent_tag_")
+        out["reads"] = [[t, tag_reads(m, t, objs)] for t in probe]
     except Exception as e:   # reported as data
         out["exc"] = "raised:" + type(e).__name__
     return out
